@@ -217,7 +217,8 @@ Allowed(cont) ==
     [] cont = "createmsgtools" -> {"text", "image", "audio", "tool_use"}
 Fills   == {"zero", "full"}                 \* every optional member empty / every member set
 Metas   == {"none", "flat", "nested"}
-Nesteds == {"na", "nil", "empty", "one", "mixed"}    \* content of a tool_result
+\* content of a tool_result: nil / empty / one text / several kinds / zero-valued text, image and audio
+Nesteds == {"na", "nil", "empty", "one", "mixed", "zeros"}
 Aritys  == {"single", "nil", "empty", "one", "two"}
 
 ValCases ==
@@ -236,15 +237,19 @@ ValCaseSet == {c \in ValCases : ValidVal(c)}
 \* omitempty on required members; TextContent likewise; ResourceContents has `text,omitempty` and
 \* `blob,omitzero`, so an empty text resource carries neither.  unmarshalContent rejects a JSON null
 \* content, which is what a nil Content slice of the single-or-array containers encodes to.
+\* ToolResultContent.MarshalJSON re-encodes its nested content through the shared wireContent struct,
+\* whose text / data members are omitempty: zero-valued nested text, image and audio lose them.
 ExpectedVal(c) ==
   [ok |-> ~(c.cont \in {"samplingv2", "createmsgtools"} /\ c.arity = "nil"),
    lost |-> {},
-   missing |-> IF c.ckind = "resource_text" /\ c.fill = "zero" THEN {"resource.text|blob"} ELSE {}]
+   missing |-> (IF c.ckind = "resource_text" /\ c.fill = "zero" THEN {"resource.text|blob"} ELSE {})
+          \cup (IF c.nested = "zeros" THEN {"text.text", "image.data", "audio.data"} ELSE {})]
 
 ValRoundTrip(c, o) == o.ok /\ o.lost = {}
 RequiredPresentVal(c, o) == o.missing = {}
 HoldsVal(c, o) == ValRoundTrip(c, o) /\ RequiredPresentVal(c, o)
 ValLead(c) == \/ c.ckind = "resource_text" /\ c.fill = "zero"
+              \/ c.nested = "zeros"
               \/ c.cont \in {"samplingv2", "createmsgtools"} /\ c.arity = "nil"
 
 -----------------------------------------------------------------------------
@@ -286,4 +291,47 @@ Answered(c, o) == o.sent # "none"
 RequiredPresent(c, o) == o.sent = "result" => (o.present /\ o.nonnull)
 HoldsReq(c, o) == Answered(c, o) /\ RequiredPresent(c, o)
 ReqLead(c) == c.type \in {"GetPromptResult", "CompleteResult", "CreateMessageWithToolsResult"} /\ c.fill = "nil"
+
+-----------------------------------------------------------------------------
+(* 5. Case sensitivity of the decoders of MCP values                          *)
+(* Targets: params as a server/client session decodes them (methodInfo.        *)
+(* unmarshalParams), content (unmarshalContent), results as a real             *)
+(* ClientSession decodes them (jsonrpc2 AsyncCall.Await -> internal/json ->    *)
+(* the type's UnmarshalJSON if it has one).                                    *)
+VcTable ==
+  { <<"params:tools/call", "name">>, <<"params:tools/call", "arguments">>, <<"params:tools/call", "_meta">>,
+    <<"params:prompts/get", "name">>, <<"params:prompts/get", "arguments">>,
+    <<"params:resources/read", "uri">>,
+    <<"params:initialize", "protocolVersion">>, <<"params:initialize", "capabilities">>, <<"params:initialize", "clientInfo">>,
+    <<"params:completion/complete", "ref">>, <<"params:completion/complete", "argument">>,
+    <<"params:notifications/progress", "progressToken">>, <<"params:notifications/progress", "progress">>,
+    <<"params:notifications/progress", "message">>,
+    <<"params:logging/setLevel", "level">>,
+    <<"content:text", "type">>, <<"content:text", "text">>, <<"content:text", "_meta">>, <<"content:text", "annotations">>,
+    <<"content:image", "data">>, <<"content:image", "mimeType">>,
+    <<"content:resource", "resource">>,
+    <<"content:tool_result", "toolUseId">>, <<"content:tool_result", "content">>, <<"content:tool_result", "isError">>,
+    <<"content:tool_result", "structuredContent">>,
+    <<"result:CallToolResult", "content">>, <<"result:CallToolResult", "isError">>,
+    <<"result:CallToolResult", "structuredContent">>, <<"result:CallToolResult", "_meta">>,
+    <<"result:GetPromptResult", "messages">>, <<"result:GetPromptResult", "description">>,
+    <<"result:ReadResourceResult", "contents">>,
+    <<"result:ListToolsResult", "tools">>, <<"result:ListToolsResult", "nextCursor">>, <<"result:ListToolsResult", "_meta">>,
+    <<"result:ListPromptsResult", "prompts">>, <<"result:ListPromptsResult", "nextCursor">>,
+    <<"result:ListResourcesResult", "resources">>, <<"result:ListResourcesResult", "nextCursor">>,
+    <<"result:CompleteResult", "completion">>, <<"result:CompleteResult", "_meta">> }
+VcCaseSet == { [target |-> p[1], member |-> p[2]] : p \in VcTable }
+
+\* Code shape: every one of these decoders is built on internal/json, which switches off
+\* case-insensitive struct-field matching (DontMatchCaseInsensitiveStructFields).
+ExpectedVc(c) == [same |-> TRUE]
+\* o.same: decoding the variant with the miscased member = decoding with that member removed
+CaseSensitiveVal(c, o) == o.same
+HoldsVc(c, o) == CaseSensitiveVal(c, o)
+VcLead(c) == FALSE
+
+-----------------------------------------------------------------------------
+(* 6. Arbitrary bytes into the decoders: a value or an error, never a panic.  *)
+(* o = [n, values, errors, panics] aggregated per (decoder, generator).       *)
+NeverPanics(o) == o.panics = 0 /\ o.values + o.errors = o.n
 =============================================================================
